@@ -47,8 +47,9 @@ def shards(tier, seed):
         out.append({"id": "cold-xcopy5", "kind": "cold", "pairs": [("ExtendedCopy5", "ExtendedCopy5")], "points": 48})
         out.append({"id": "cold-xcopy4", "kind": "cold", "pairs": [("ExtendedCopy4", "ExtendedCopy4")], "points": 48})
         out.append({"id": "cold-data", "kind": "cold", "pairs": [("data:inquiry.vpd83:40", "data:reportluns:300"), ("data:getlbastatus:300", "data:getlbastatus:300")], "points": 40})
-        out.append({"id": "cold-luns-a", "kind": "cold", "pairs": [("data:reportluns:300", "data:reportluns:300")], "points": 100, "phase": 0})
-        out.append({"id": "cold-luns-b", "kind": "cold", "pairs": [("data:reportluns:300", "data:reportluns:300")], "points": 100, "phase": 1})
+        # lists of different lengths: what one thread leaves behind is reached by the longer list of the other, or by a later one
+        out.append({"id": "cold-luns-a", "kind": "cold", "pairs": [("data:reportluns:330", "data:reportluns:290")], "points": 110, "phase": 0})
+        out.append({"id": "cold-luns-b", "kind": "cold", "pairs": [("data:reportluns:330", "data:reportluns:290")], "points": 110, "phase": 1})
         out.append({"id": "sched-rand", "kind": "schedrand", "n": 300})
     else:
         for i in range(0, 42, 3):
@@ -83,7 +84,7 @@ def shards(tier, seed):
         from vmon.spec import datain as D2
 
         lists = ["reportluns", "getlbastatus", "inquiry.vpd83", "reporttargetportgroups", "readelementstatus", "prin.readkeys", "prin.readfullstatus", "reportpriority"]
-        dp = [("data:%s:300" % a, "data:%s:300" % b) for a in lists for b in lists if a <= b and a in D2.FORMATS and b in D2.FORMATS]
+        dp = [("data:%s:330" % a, "data:%s:290" % b) for a in lists for b in lists if a in D2.FORMATS and b in D2.FORMATS]
         for i in range(6):
             out.append({"id": "cold-data-%d" % i, "kind": "cold", "pairs": dp[i::6], "points": 120})
     return out
